@@ -177,7 +177,8 @@ class Operational(Message):
             cls._check_size(data, 7, what, 'an afi, a safi and its advisory')
             afi = unpack('!H', data[4:6])[0]
             safi = data[6]
-            return cast(Operational, factory(afi, safi, data[7 : length + 4]))
+            # the body comes from the socket as a memoryview: the advisory classes take bytes (or text)
+            return cast(Operational, factory(afi, safi, bytes(data[7 : length + 4])))
         if decode == 'query':
             cls._check_size(data, 15, what, 'an afi, a safi, a router-id and a sequence')
             afi = unpack('!H', data[4:6])[0]
